@@ -280,4 +280,49 @@ theorem calls_window (D : Derivers) (ks : List Kind) (src : Bytes) (i : Nat)
   · rw [run_rest, List.drop_drop, offset_succ ks i hi]
   · cases ks[i] <;> simp [run, raw, withDerived, onlyDerived, two, Kind.consumed]
 
+/-! ### many calls of the same entry point: no value repeats when the draws are distinct -/
+
+theorem offset_replicate (k : Kind) (n i : Nat) (hi : i ≤ n) :
+    offset (List.replicate n k) i = i * k.consumed := by
+  unfold offset
+  rw [List.take_replicate, Nat.min_eq_left hi, List.map_replicate]
+  clear hi
+  induction i with
+  | zero => simp
+  | succ i ih => rw [List.replicate_succ, List.sum_cons, ih, Nat.succ_mul, Nat.add_comm]
+
+/-- the i-th of n calls of the same entry point is the operation run on the stream from which
+the first `i · consumed` bytes have been removed -/
+theorem calls_replicate (D : Derivers) (k : Kind) (n i : Nat) (src : Bytes) (hi : i < n) :
+    (runSeq D (List.replicate n k) src)[i]? = some (run D k (src.drop (i * k.consumed))) := by
+  have hl : i < (List.replicate n k).length := by simpa using hi
+  rw [calls_disjoint D _ src i hl, offset_replicate k n i (Nat.le_of_lt hi)]
+  simp
+
+/-- the i-th window of `src` for an entry point consuming `c` bytes per call -/
+def window (c : Nat) (src : Bytes) (i : Nat) : Bytes := (src.drop (i * c)).take c
+
+/-- **across many calls no value repeats, given distinct draws**: among `n` consecutive calls of
+the same entry point (any kind but `.ephemeral`) on a stream long enough, two calls whose windows
+of the stream differ return different values -/
+theorem calls_fresh (k : Kind) (hk : k ≠ .ephemeral) (n i j : Nat) (src : Bytes) (hi : i < j)
+    (hj : j < n) (hl : n * k.consumed ≤ src.length)
+    (hw : window k.consumed src i ≠ window k.consumed src j) :
+    ∃ ri rj, (runSeq specDerivers (List.replicate n k) src)[i]? = some ri ∧
+      (runSeq specDerivers (List.replicate n k) src)[j]? = some rj ∧ ri.comp ≠ rj.comp := by
+  have hlen : ∀ t, t < n → k.consumed ≤ (src.drop (t * k.consumed)).length := by
+    intro t ht
+    have h1 : (t + 1) * k.consumed ≤ n * k.consumed := Nat.mul_le_mul_right _ ht
+    rw [Nat.add_mul, Nat.one_mul] at h1
+    rw [List.length_drop]; omega
+  refine ⟨_, _, calls_replicate _ k n i src (by omega), calls_replicate _ k n j src hj, ?_⟩
+  exact fresh_outputs_spec k _ _ hk (hlen i (by omega)) (hlen j hj) hw
+
+/-! ### byte positions -/
+
+/-- every byte position of a raw value is the corresponding drawn byte -/
+theorem raw_byte (n i : Nat) (src : Bytes) (hi : i < n) : (raw n src).comp[i]? = src[i]? := by
+  show (src.take n)[i]? = src[i]?
+  rw [List.getElem?_take, if_pos hi]
+
 end DryocVerif.Proofs.EntropyExtra
